@@ -108,7 +108,7 @@ FSM_OPERATION_MAP_SOURCE = {
         "|": FSMOperate.add_and_handle_cache_to_wait(marks=AMTMark.NONE),  # 符号：||
         char_set.END_TOKEN: FSMOperate.handle_cache_to_wait(marks=AMTMark.NONE),  # 符号：|
         END: FSMOperate.handle_cache_to_end(marks=AMTMark.NONE),
-        DEFAULT: FSMOperate.raise_error()
+        DEFAULT: FSMOperate.handle_cache_to_wait(marks=AMTMark.NONE)  # 符号：|
     },
 
     # 在 0 之后
